@@ -1026,12 +1026,17 @@ def main():
         "negation added later), 5 format sets quick / 22 thorough, 7 root spellings, -v / -h, 2-5 time zones with mtimes around DST "
         "switches, a crash at 8 (quick) / every (thorough) file-system event of a second create, 6 (quick) / 120 (thorough) seeded random worlds; quick runs the basic mutation kinds on 15 worlds and a probe subset (root-level, deepest, one per nested history, one per class) elsewhere",
     )
-    fsets = S.format_sets(run.tier)
-    for part in (part_mutations, part_histories, part_spellings, part_special, part_crash, part_random):
+    parts = (part_mutations, part_histories, part_spellings, part_special, part_crash, part_random)
+    for part in parts:
         t0, n0 = time.time(), run.evaluations
-        part(run, fsets)
+        part(run, S.format_sets(run.tier))
         if os.environ.get("C09_DEBUG"):
             print(f"{part.__name__}: {run.evaluations - n0} cases, {time.time() - t0:.1f} s, {len(run.violations)} violations", file=sys.stderr)
+    if run.only and run.evaluations == 0 and not run.violations and run.tier != "thorough":
+        # a case id reported by a thorough run: enumerate with the thorough dimensions to find it
+        run.tier = "thorough"
+        for part in parts:
+            part(run, S.format_sets(run.tier))
     run.finish()
 
 
